@@ -92,13 +92,13 @@ def run_groups(group_names, repo, scratch, tier, jobs=None, keep=False, only=Non
                 out["functions"].append(dict(f, engine="kani", unit=g["name"], under_contract=True))
         jobs = jobs or min(8, max(1, len(harnesses)))
         cmd = ["cargo", "kani", "--no-default-features", "-Z", "function-contracts", "-Z", "stubbing", "-Z", "unstable-options",
-               "--output-format", "terse", "-j", str(jobs), "--harness-timeout", "%ds" % (1500 if tier == "thorough" else 900)]
+               "--output-format", "terse", "-j", str(jobs), "--harness-timeout", "%ds" % (3000 if tier == "thorough" else 1800)]
         for h in harnesses:
             cmd += ["--harness", h]
         env = dict(os.environ, CARGO_NET_OFFLINE="true", CARGO_TARGET_DIR=os.path.join(work, "target"))
         out["cmds"].append(" ".join(cmd[:14]) + " --harness <%d harnesses>" % len(harnesses))
         try:
-            p = subprocess.run(cmd, cwd=tree, capture_output=True, text=True, env=env, timeout=3600 if tier == "thorough" else 2400)
+            p = subprocess.run(cmd, cwd=tree, capture_output=True, text=True, env=env, timeout=7200 if tier == "thorough" else 4800)
             raw = p.stdout + "\n" + p.stderr
         except subprocess.TimeoutExpired as e:
             raw = ((e.stdout or b"").decode(errors="replace") if isinstance(e.stdout, bytes) else (e.stdout or "")) + "\nTIMEOUT"
